@@ -189,6 +189,10 @@ func GenEngineScript(r *Rng, o EngineGenOpts, hist map[string]int) []string {
 		add("dump")
 		add("list")
 		add("fold")
+		if r.Chance(1, 2) {
+			add("foldn %d", r.Pick(0, 1, 2, 3, 5, 100))
+			hist["fold_stopped_by_callback"]++
+		}
 		add("stat")
 		for _, k := range engKeys {
 			add("get %s", k)
